@@ -58,6 +58,10 @@ impl Visitor<StatementPos> for InstructionGenerator {
             },
             Statement::Label(name) => {
                 self.push(Instruction::Label(name), pos);
+                self.push(
+                    Instruction::TrimStacks(self.for_depth, self.select_depth),
+                    pos,
+                );
             }
             Statement::GoTo(name) => {
                 self.push(Instruction::Jump(AddressOrLabel::Unresolved(name)), pos);
